@@ -703,3 +703,16 @@ Proof.
   intros p Hp. apply In_nth_error in Hp. destruct Hp as (q & Hq'). unfold counted. destruct (k_added p) eqn:Had; [|reflexivity].
   rewrite (Hall q p Hq' Had). reflexivity.
 Qed.
+
+(* while a completion callback runs, its taskpool is still counted: active_taskpools > 0, whoever
+   runs the callback (no appeal to the quiescence condition of MWaitLeave) *)
+Lemma P_callback_keeps_active decls evs q p :
+  nth_error (pools (run decls evs)) q = Some p -> k_st p = STermCb -> 0 < active (run decls evs).
+Proof.
+  intros Hq Hst. pose proof (run_inv decls evs) as Hi. rewrite (i_active _ Hi).
+  pose proof (Forall_nth _ _ _ _ (i_pools _ Hi) Hq) as Hok.
+  assert (Had : k_added p = true).
+  { destruct (k_added p) eqn:E; [reflexivity|]. destruct (ok_new p (pre_of_ok p Hok) E) as (Hx & _). congruence. }
+  assert (Hc : counted p = true) by (unfold counted; rewrite Had, Hst; reflexivity).
+  pose proof (cnt_pos_of_nth _ _ _ _ Hq Hc). unfold tok. destruct (started _ && _); lia.
+Qed.
